@@ -18,15 +18,17 @@ ASSUMPTIONS = ['reference evaluator lv/ref.py is the oracle', 'CPython sqlite3',
                'grouping / equality only on atoms; ordering values of ArgMin/ArgMax null-free']
 # Open known findings are kept out of the generated domain by construction (flags):
 EXCLUDE_EMPTY_COUNT = False     # C02-count-of-nothing: Count{..} of no solution is 0
-AGG_OPS = ('Sum', 'Min', 'Max', 'Count', '+', 'List', 'Set', 'ArgMin', 'ArgMax')
+AGG_OPS = ('Sum', 'Min', 'Max', 'Count', '+', 'List', 'Set', 'ArgMin', 'ArgMax', 'ArgMin2',
+           'ArgMax2', 'ArgMax3')
 if EXCLUDE_EMPTY_COUNT:
     AGG_OPS = tuple(o for o in AGG_OPS if o != 'Count')
 OPTS = dict(p_colnames=0.0, p_head_perm=0.2, p_neg=0.3, p_agg=0.45, p_distinct=0.5, p_sibling_reuse=0.7,
             p_feed_sibling=0.7, p_multi_combine=0.3, p_null_fact=0.06, p_or=0.15, p_fcall=0.05,
             agg_ops=AGG_OPS,
             pred_agg_ops_n=('Sum', 'Min', 'Max', 'Count', '+', 'List', 'Set', 'ArgMin',
-                            'ArgMax'),
-            pred_agg_ops_s=('Min', 'Max', 'List', 'Set', 'ArgMin', 'ArgMax', 'Count'),
+                            'ArgMax', 'ArgMax2', 'ArgMin2', 'ArgMin3'),
+            pred_agg_ops_s=('Min', 'Max', 'List', 'Set', 'ArgMin', 'ArgMax', 'Count',
+                            'ArgMax2', 'ArgMin2'),
             n_idb=(2, 3), nest_depth=2)
 NT = {'combine', 'negation', 'distinct', 'pred_aggregation'}
 
